@@ -533,6 +533,57 @@ func init() {
 				}
 			}
 		}
+		c.Phase("results-of-every-magnitude") // opcodes whose RESULT is a number the script did not contain: OP_SIZE of items of every length 0..300 and around 2^15 / 2^16, OP_DEPTH over 0..300 items, sums / products / differences landing on every sign-bit boundary of the number encoding
+		{
+			n := uint64(0)
+			gen2 := uint32(scriptflag.UTXOAfterGenesis)
+			one := func(u, l []byte, fl uint32) {
+				n++
+				if c.Case(n) {
+					judge(c, &progInput{Unlock: u, Lock: l, Flags: fl, Ctx: defaultCtx(), Src: "results-of-every-magnitude"})
+				}
+			}
+			lens := []int{}
+			for L := 0; L <= 300; L++ {
+				lens = append(lens, L)
+			}
+			lens = append(lens, 519, 520, 521, 32767, 32768, 32769, 65535, 65536, 65537, 8388607, 8388608)
+			for _, L := range lens {
+				item := gen.Push(bytesOf(0x5a, L))
+				for _, fl := range []uint32{0, gen2} {
+					if L > 520 && fl == 0 && L > 40000 {
+						continue
+					}
+					// the result is compared with the same number written out, and used as a number
+					one(item, append(append([]byte{0x82}, gen.PushNum(int64(L))...), 0x87, 0x69, 0x82, 0x8b, 0x75, 0x75, 0x51), fl) // SIZE <L> EQUAL VERIFY SIZE 1ADD DROP DROP 1
+					one(item, []byte{0x82, 0x00, 0xa2, 0x69, 0x75, 0x51}, fl)                                                        // SIZE 0 GREATERTHANOREQUAL VERIFY DROP 1
+				}
+			}
+			for k := 0; k <= 300; k++ {
+				for _, fl := range []uint32{0, gen2} {
+					u := bytes.Repeat([]byte{0x51}, k)
+					l := append(append([]byte{0x74}, gen.PushNum(int64(k))...), 0x87, 0x69, 0x74, 0x00, 0xa2) // DEPTH <k> EQUAL VERIFY DEPTH 0 GREATERTHANOREQUAL
+					one(u, l, fl)
+				}
+			}
+			// arithmetic results on both sides of every byte-width boundary of the encoding (127/128, 255/256, 32767/32768, ...)
+			for _, b := range []int64{127, 128, 255, 256, 32767, 32768, 65535, 65536, 8388607, 8388608, 16777215, 16777216, 2147483647} {
+				for d := int64(-1); d <= 1; d++ {
+					for _, neg := range []bool{false, true} {
+						v := b + d
+						if neg {
+							v = -v
+						}
+						for _, fl := range []uint32{0, gen2} {
+							one(append(gen.PushNum(v-1), 0x51), append(append([]byte{0x93}, gen.PushNum(v)...), 0x87), fl)                 // (v-1) 1 ADD v EQUAL
+							one(append(gen.PushNum(v+1), 0x51), append(append([]byte{0x94}, gen.PushNum(v)...), 0x87), fl)                 // (v+1) 1 SUB v EQUAL
+							one(gen.PushNum(v), append(append([]byte{0x8f, 0x8f}, gen.PushNum(v)...), 0x87), fl)                          // v NEGATE NEGATE v EQUAL
+							one(gen.PushNum(v), append(append(append([]byte{0x76, 0x90}, gen.PushNum(abs64(v))...), 0x88), 0x75, 0x51), fl) // v DUP ABS |v| EQUALVERIFY DROP 1
+						}
+					}
+				}
+			}
+		}
 		c.Phase("shift")
 		n = 0
 		for _, ln := range []int{1, 2, 3, 8} {
@@ -666,4 +717,11 @@ func init() {
 		return ""
 	}
 	mon.Register(p)
+}
+
+func abs64(v int64) int64 {
+	if v < 0 {
+		return -v
+	}
+	return v
 }
